@@ -25,4 +25,19 @@ def make_specs():
                            lambda eng, st, r: _sel_real(r[0], r[1] + r[4] * z3.Select(r[2], smt.som(r[3] + r[5] - 1))
                                                         + (r[5] - 1)),
                            "sum over channels of delay-shifted samples")
+    # dsel(A, i0, D, doff, nc, S, soff, s, n) = sum_{c<n, S[soff+c]==s} A[i0 + nc*D[doff+c] + c]
+    specs["dsel"] = SpecFn("dsel", None, REAL,
+                           lambda eng, st, r: z3.If(z3.Select(r[5], smt.som(r[6] + r[8] - 1)) == r[7],
+                                                    _sel_real(r[0], r[1] + r[4] * z3.Select(r[2], smt.som(r[3] + r[8] - 1))
+                                                              + (r[8] - 1)), z3.RealVal(0)),
+                           "sum over the channels of one sub-band of delay-shifted samples")
+
+    # ssum2(A, base, s1, n2, n1) = sum_{a<n1} ssum(A, base + s1*a, 1, n2)
+    def unfold2(eng, st, r):
+        from pvc.values import VInt
+        from pvc.calls import VOpaqueArr
+        inner = specs["ssum"].apply(eng, st, [VOpaqueArr(r[0]), VInt(smt.som(r[1] + r[2] * (r[4] - 1))), VInt(1),
+                                              VInt(r[3])])
+        return inner.t
+    specs["ssum2"] = SpecFn("ssum2", None, REAL, unfold2, "block sum over n1 rows of n2 contiguous elements")
     return specs
